@@ -61,13 +61,13 @@ def _run(ctx):
         n1.fail("C05.N1:anchor", calc.path, calc.span, "anchor-missing: share calculator parameters")
         return
     SUP = P_(calc, sup_i)
-    zero_eq = "eq(%s) is " % ", ".join(sorted(["C:cosmwasm_std::Uint128::zero@%s:bb0" % calc.path, SUP]))
+    zero_eq = "is_zero(%s) is " % SUP
     tab = lemmas.fn_table(ctx, calc)
     first_ok = normal_ok = None
     for b, v, cs in tab:
         if common.classify_ret_value(v) != "ok":
             continue
-        empty = [c for c in cs if c.startswith("eq(") and SUP in c]
+        empty = [c for c in cs if c.startswith(zero_eq)]
         if any(c.endswith("[True]") for c in empty):
             first_ok = (b, v, cs)
         elif any(c.endswith("[False]") for c in empty):
@@ -355,7 +355,7 @@ def _run(ctx):
                 r3.site("native pool asset i: pools[i].amount -= deposits[i] (aborting), every iteration")
         # the loop precedes the calculator and the slippage guard
         for bb, p, fr, t in P.calls(f):
-            if p and roles.is_workspace_fn(P, p) and (generic_path(p) == calc.path or re.search(r"fn\(&'?\w* ?std::option::Option<cosmwasm_std::\S*Decimal>", (P.fn(p).sig or ""))):
+            if p and roles.is_workspace_fn(P, p) and (generic_path(p) == calc.path or re.search(r"fn\((&'?\w* ?)?std::option::Option<cosmwasm_std::\S*Decimal>", (P.fn(p).sig or ""))):
                 if not body.edge_dominates(dl["none_edge"], bb):
                     r3.fail("C05.R3:order:%s" % common.last_seg(p), f.path, common.span_of_block_term(f, bb), "%s runs before the native deposits were subtracted from the observed reserves" % common.last_seg(p))
                 else:
